@@ -14,7 +14,7 @@ Tie to /repo on every run:
                   is the offset of an op of the result, every op object is exactly SsbOperation, three tables equally long
   ssbs            the compiled routine sets are decompiled to SsbScript by the real decompiler and compiled by the real
                   SsbScript compiler; hand-shaped SsbScript ASTs are printed and compiled: same oracle on every accepted
-                  result, and the Lean SsbScript compiler model must agree (driver op ssbs.compile)
+                  result, and the Lean SsbScript compiler model must agree (driver op comp.ssbs_compile = the model of C07 with the routine id check of repo commit 418dd8e in front)
   glue            astdump(print(ast)) == ast for every generated program that compiles
 """
 from __future__ import annotations
@@ -34,10 +34,10 @@ from ..gen.programs import Cfg
 
 MODULES = ["ESV.Props.C03"]
 THEOREMS = [
-    "ESV.C03.compile_closed", "ESV.C03.backend_closed", "ESV.C03.counter_fresh", "ESV.C03.remover_closed",
-    "ESV.C03.no_pseudo_items", "ESV.C03.tables_same_length", "ESV.C03.finalizer_offsets_survive",
-    "ESV.C03.strip_last_label_offsets", "ESV.C03.ssbscript_compile_closed", "ESV.C03.jump_param_is_last",
-    "ESV.C03.compile_closed_counterexample", "ESV.C03.ssbscript_compile_closed_counterexample",
+    "ESV.C03.compile_closed", "ESV.C03.compile_closed_partial", "ESV.C03.backend_closed", "ESV.C03.counter_fresh",
+    "ESV.C03.remover_closed", "ESV.C03.no_pseudo_items", "ESV.C03.tables_same_length", "ESV.C03.finalizer_offsets_survive",
+    "ESV.C03.strip_last_label_offsets", "ESV.C03.jump_param_is_last", "ESV.C03.compile_closed_counterexample",
+    "ESV.C03.ssbscript_compile_closed", "ESV.C03.ssbscript_compile_checked_closed", "ESV.C03.ssbscript_marker_counterexample", "ESV.C03.ssbscript_repeated_id_counterexample",
 ]
 
 # programs whose shapes the property text names; parsed with the repository's parser into the surface AST
@@ -66,11 +66,41 @@ FIXED = [
     "coro A { a(); jump @z; } coro B { @z; }",
     "def 0 { with (actor 3) { return; } }",
     "def 0 { with (actor 3) { jump @l; } @l; a(); }",
+    "def 0 { for (a(); debug; continue;) { b(); } }",
+    "def 0 { forever { with (actor 1) { break_loop; } } }",
+    "def 0 { switch ($X) { case 1: with (actor 2) { break; } } }",
+    "def 0 { for (@l; debug; jump @l;) { } }",
+    "def 0 { while (BranchVariation(1)) { while not (BranchEdit(0)) { continue; } } }",
+    "def 0 { if (debug) { ~m(); } } macro m() { jump @e; @e; }",
+    "def 0 { a(); } coro X { b(); } def 5 { c(); } coro Y { d(); }",
+    "def 0 { if (debug) { } elseif not (edit) { jump @x; } else { } @x; }",
+    "macro m() { a(); } macro m() { b(); } def 0 { ~m(); }",
+    "def 0 { switch (sector()) { case 1: jump @a; case 2: break; default: jump @a; case 3: @a; } }",
+    "def 0 { switch ($X) { case 1: a(); return; case 2: break; case 3: jump @q; } @q; }",
+    "def 0 { switch ($X) { case 1: a(); @z; case 2: break; } jump @z; }",
+    "def 0 { switch (scn($S)[0]) { case > 3: a(); case == 2: b(); } }",
+    "def 0 { if (debug || edit || variation) { jump @t; } elseif (not debug) { hold; } @t; end; }",
+    "def 0 { if not (debug || edit) { break; } }",
+    "def 0 { forever { forever { break_loop; } continue; } }",
+    "def 0 { with (actor 1) { @lab; } }",
+    "def 0 { message_SwitchTalk ($X) { case 1: 'a' case 2: 'b' default: 'c' } }",
+    "macro a() { ~b(); } macro b() { ~c(); x(); } macro c() { return; } def 0 { ~a(); ~c(); }",
+    "macro a($p) { ~b($p, 2); } macro b($q, $r) { x($q, $r, $p); jump @l; @l; } def 0 { ~a(K); }",
+    "macro a($p) { x($p); } def 0 { ~a(); }",
+    "macro a() { forever { return; } } def 0 { ~a(); }",
+    "macro a() { while (BranchEdit(1)) { return; } } def 0 { ~a(); b(); }",
+    "def 0 { jump @nowhere; }",
+    "def 0 { switch ($X) { case 1: } }",
+    "def 0 { switch ($X) { default: a(); default: b(); } }",
+    "def 0 { if (Foo()) { a(); } }",
+    "def 0 { while (Foo()) { a(); } ~nosuch(); }",
+    "def 1 { a(); } def 0 { b(); }",
+    "def 0 { a(); } def 0 { jump @x; @x; b(); }",
 ]
 # inside the quantifier, violates the property on the real code: listed in known_findings.jsonl, proved as
 # ESV.C03.compile_closed_counterexample on the model
 KNOWN_WITNESSES = ["def 0 { Jump(7); }", "def 0 { switch (Call(9)) { case 1: a(); } }"]
-SSBS_WITNESS = "def 0 {\n    Jump(7);\n}\n"
+SSBS_WITNESSES = ["def 0 {\n    Jump(7);\n}\n", "def 0 {\n    @a;\n    foo();\n}\ndef 0 {\n    Jump(@a);\n}\n"]
 
 
 # ---- property oracle ----------------------------------------------------------------------------------------------------
@@ -117,6 +147,27 @@ def oracle(res: dict, jt: dict, ast: dict | None = None) -> list[tuple[str, str]
     return bad
 
 
+def ssbs_kind(ast: list, kind: str, what: str, jt: dict) -> str:
+    """narrow shape of a dangling jump in an SsbScript compile result, read off the statement AST:
+    - an op named like a jump-carrying op whose last argument is no jump marker (an integer written where `@label` belongs),
+    - a routine id that is defined twice (the ops of the first definition vanish, labels inside keep their offsets) or is negative"""
+    if kind != "jump_target_not_an_op":
+        return kind
+    name = what.split(": ", 1)[1].split("[", 1)[0] if ": " in what else ""
+    raw = {s["op"] for rt in ast for s in (rt["body"] or []) if "op" in s and not any(isinstance(a, dict) and "j" in a for a in s["args"][-1:])}
+    if name in raw:
+        return "ssbs_jump_op_without_trailing_marker"
+    ids = []
+    cur = -1
+    for rt in ast:
+        h = rt["hdr"]
+        cur = cur + 1 if h["k"] == "coro" else h["id"]
+        ids.append(cur)
+    if len(set(ids)) != len(ids) or any(i < 0 for i in ids):
+        return "ssbs_routine_id_defined_twice"
+    return kind
+
+
 # ---- correspondence -----------------------------------------------------------------------------------------------------
 def real_view(res: dict) -> dict:
     if "error" in res:
@@ -161,7 +212,7 @@ def surface_of_text(text: str) -> dict:
 
 def gen_cases(run: core.Run) -> tuple[list[dict], Counter]:
     quick = run.tier == "quick"
-    n_plain, n_macro, n_bad = (1400, 700, 500) if quick else (24000, 12000, 6000)
+    n_plain, n_macro, n_bad = (1400, 700, 500) if quick else (12000, 6000, 3000)
     gstats: Counter = Counter()
     cases: list[dict] = []
     for t in FIXED + KNOWN_WITNESSES:
@@ -230,11 +281,11 @@ def run(run: core.Run) -> int:
         # ---- SsbScript channel inputs: real compile results (dense, every routine defined) and hand-shaped ASTs
         ok_sets = []
         for c, r in zip(cases, results):
-            if "error" not in r and all(i is not None for i in r["infos"]) and len(ok_sets) < (400 if quick else 6000):
+            if "error" not in r and all(i is not None for i in r["infos"]) and len(ok_sets) < (400 if quick else 3000):
                 ok_sets.append({"infos": r["infos"], "coros": r["coros"], "ops": [[{"off": o["off"], "name": o["name"], "params": o["params"]} for o in rt] for rt in r["ops"]]})
-        n_sast = 300 if quick else 6000
+        n_sast = 300 if quick else 3000
         sasts = [SA.gen_ast(run.rng) for _ in range(n_sast)]
-        stexts = [SA.print_ast(a, run.rng) for a in sasts] + [SSBS_WITNESS]
+        stexts = [SA.print_ast(a, run.rng) for a in sasts] + SSBS_WITNESSES
         sin = [{"set": s} for s in ok_sets] + [{"text": t} for t in stexts]
         chunks = [sin[i:i + 40] for i in range(0, len(sin), 40)]
         souts_raw = pool.map("harness.impl_ssbs:run_cases", chunks, timeout=180)
@@ -292,7 +343,9 @@ def run(run: core.Run) -> int:
                 mism += 1
                 if mism <= 3:
                     def differs(a: dict) -> bool:
-                        return check_one(a, jt, drv)["mismatch"]
+                        one_ = check_one(a, jt, drv)
+                        # a text the parser rejects is not a case for the model (it starts after parsing)
+                        return one_["mismatch"] and one_["res"].get("error") != "ParseError"
                     try:
                         small = escommon.shrink(c["ast"], differs, budget=120 if quick else 300)
                         one = check_one(small, jt, drv)
@@ -344,16 +397,18 @@ def run(run: core.Run) -> int:
             y2 = dict(y)
             y2["lens"] = [len(y["infos"]), len(y["coros"]), len(y["ops"])]
             bad = oracle(y2, jt, None)
-            # an integer written where a jump marker belongs is the SsbScript form of the known finding
             if bad and "ast" in r:
-                raw = {s["op"] for rt in r["ast"] for s in (rt["body"] or []) if "op" in s and not any(isinstance(a, dict) and "j" in a for a in s["args"][-1:])}
-                bad = [("ssbs_user_op_named_like_jump_op" if (k == "jump_target_not_an_op" and any(n in w for n in raw if n in jt)) else k, w) for k, w in bad]
+                bad = [(ssbs_kind(r["ast"], k, w, jt), w) for k, w in bad]
             for k, w in bad[:1]:
                 n_oracle_bad += 1
                 run.violation(k, "SsbScript: " + w, {"ssbscript_text": r.get("text") or x, "ops": y["ops"]})
+            if kind == "text" and x in SSBS_WITNESSES and not bad:
+                run.broken_tie("witness of an ESV.C03.ssbscript_*_counterexample theorem no longer fails on the real SsbScript compiler", {"text": x, "real": y})
+        if kind == "text" and x in SSBS_WITNESSES and "comp_exc" in r:
+            run.broken_tie("witness of an ESV.C03.ssbscript_*_counterexample theorem is now rejected by the real SsbScript compiler", {"text": x, "real": r["comp_exc"]})
         if "ast" in r and drv is not None:
             s_model_idx.append(i)
-            s_model_reqs.append({"op": "ssbs.compile", "ast": r["ast"]})
+            s_model_reqs.append({"op": "comp.ssbs_compile", "ast": r["ast"]})
     if drv is not None and s_model_reqs:
         sreps = drv.batch_parallel(s_model_reqs, jobs)
         for i, m in zip(s_model_idx, sreps):
